@@ -51,7 +51,7 @@ POSITIONS = {
     "nested_deep": "def f(a, b):\n    x = 0\n    while x < a:\n        if b:\n            for i in range(a):\n{S4}\n        x += 1\n    return x\n",
 }
 # ---- the position grammar of Unsupported.tla, mirrored (TLC certifies that both sides build the same set) ----
-CTX = ["if", "else", "elif", "while", "whileelse", "for", "forelse"]
+CTX = ["if", "else", "elif", "while", "whileelse", "for", "forelse", "if0", "else1", "while0"]
 TERMS = ["-", "ret", "brk", "cnt"]
 BEFORE = ["none", "simple", "if", "loop"]
 AFTER = ["none", "simple"]
@@ -63,6 +63,9 @@ CONTEXTS = {
     "whileelse": "while x < a:\n    x += 1\nelse:\n{B}",
     "for": "for i in range(a):\n{B}\n    x += i",
     "forelse": "for i in range(a):\n    x += i\nelse:\n{B}",
+    "if0": "if 0:\n{B}\nelse:\n    x = 3",
+    "else1": "if 1:\n    x = 3\nelse:\n{B}",
+    "while0": "while 0:\n    x += 1\n{B}",
 }
 T_SRC = {"-": [], "ret": ["return x"], "brk": ["break"], "cnt": ["continue"]}
 P_SRC = {"none": [], "simple": ["x = 5"], "if": ["if b:\n    x = 6"], "loop": ["while x < b:\n    x += 2"]}
@@ -75,7 +78,7 @@ def steps_of(ctxs):
 
 def valid(path):
     for j, st in enumerate(path):
-        if st[1] in ("brk", "cnt") and not any(q[0] in ("while", "for") for q in path[1: j + 1]):
+        if st[1] in ("brk", "cnt") and not any(q[0] in ("while", "for", "while0") for q in path[1: j + 1]):
             return False
     return True
 
@@ -298,7 +301,7 @@ def main(argv):
         "control_programs_refused": controls_refused,
         "rule": "every ast.stmt subclass of the running interpreter outside the supported set (%d kinds, nested FunctionDef included) at every position of the "
                 "TLA+ position grammar Positions(1) (%d positions: suite of the function or of one compound context - if / else / elif / while / while-else / "
-                "for / for-else -, preceded by nothing / a simple statement / an if / a loop, optionally after a return / break / continue, followed by "
+                "for / for-else, and the suites a constant test makes dead: if 0 / else of if 1 / while 0 -, preceded by nothing / a simple statement / an if / a loop, optionally after a return / break / continue, followed by "
                 "nothing / a statement), handed over as source text, as AST list and%s as function object; thorough adds Positions(2) for Raise, With, "
                 "FunctionDef; plus %d named templates per kind, two supported control programs and %d non-function inputs (text, AST list, class object, "
                 "lambda). TLC certifies per kind that the recorded cases are exactly Kinds x Positions x Forms" % (
